@@ -450,7 +450,10 @@ def check_headers(cx, e_id, f_id):
                 continue
             here = efa.at(loc) or [frozenset()]
             for alts, ce in case_values(cx, es, es.rvalue_expr(node["rv"])):
-                ret_cases.append((loc, [frozenset(a) | frozenset(h) for a in alts for h in here], show(ce)))
+                merged = [frozenset(a) | frozenset(h) for a in alts for h in here]
+                # a value chosen in one arm combined with the facts of another arm at the merge point is infeasible
+                merged = [m_ for m_ in merged if not any((l_.startswith("eq(") and ("ne(" + l_[3:]) in m_) or (l_.startswith("!") and l_[1:] in m_) for l_ in m_)] or merged
+                ret_cases.append((loc, merged, show(ce)))
         for loc, case_alts, e in ret_cases:
             m = re.match(r"add\((?:frame::serial::)?(DATAGRAM_HEADER_SIZE_[A-Z]+),\[T\]::len\(arg1\.data\)\)|add\(\[T\]::len\(arg1\.data\),(?:frame::serial::)?(DATAGRAM_HEADER_SIZE_[A-Z]+)\)", e)
             if not m:
